@@ -663,7 +663,7 @@ func (e *escaper) escapeTree(c context, node parse.Node, name string, line int) 
 	e.called[dname] = true
 	if out, ok := e.output[dname]; ok {
 		// Already escaped.
-		return out, dname
+		return memoizedContext(out).after(c), dname
 	}
 	t := e.template(name)
 	if ht := e.ns.set[name]; ht != nil && ht.Tree == nil && t != nil && t != ht.text {
@@ -722,8 +722,34 @@ func (e *escaper) escapeTree(c context, node parse.Node, name string, line int) 
 	out := e.computeOutCtx(c, t)
 	// escapeTemplateBody only recorded an assumption; record the computed context, or
 	// the error, so that later callers do not rely on an assumption that did not hold.
-	e.output[dname] = out
+	e.output[dname] = memoize(c, out)
 	return out, dname
+}
+
+// memoizedContext is the output context of a called template in the form in which it is kept
+// for later calls. The analysis of a copy is shared by all calls whose contexts have the same
+// mangled name, but inside an attribute value these contexts differ in the static text seen so
+// far, which the output context carries along: it is therefore stored relative to the text that
+// the first call started with.
+type memoizedContext context
+
+const relativeValueMark = "\x00"
+
+// memoize returns the form in which out, the output context of a call made in context c, is kept.
+func memoize(c, out context) context {
+	if c.state == stateAttr && out.state == stateAttr && strings.HasPrefix(out.attr.value, c.attr.value) && !strings.HasPrefix(out.attr.value, relativeValueMark) {
+		out.attr.value = relativeValueMark + out.attr.value[len(c.attr.value):]
+	}
+	return out
+}
+
+// after returns the output context of a call made in context c.
+func (m memoizedContext) after(c context) context {
+	out := context(m)
+	if strings.HasPrefix(out.attr.value, relativeValueMark) {
+		out.attr.value = c.attr.value + out.attr.value[len(relativeValueMark):]
+	}
+	return out
 }
 
 // computeOutCtx takes a template and its start context and computes the output
@@ -770,7 +796,7 @@ func (e *escaper) escapeTemplateBody(c, out context, t *template.Template) (cont
 	// take the fast path out of escapeTree instead of infinitely recursing.
 	// Naively assuming that the input context is the same as the output
 	// works >90% of the time.
-	e.output[t.Name()] = out
+	e.output[t.Name()] = memoize(c, out)
 	return e.escapeListConditionally(c, t.Tree.Root, filter)
 }
 
